@@ -39,6 +39,7 @@ func checkC06(c *Ctx) {
 		c06SGR(c, p, m, mr)
 		c06Layout(c, p, m, mr)
 		padUnbounded(c, p)
+		tagWidthSetter(c, p)
 		c07Sort(c, p, m)
 		messageIdentity(c, p, "R05.10")
 		c08Stores(c, p, m)
